@@ -480,8 +480,8 @@ def bop_set (l r : Val) (m : M) : Option OpRes :=
           let xs1 := if xs.length ≤ i then xs ++ List.replicate (i + 1 - xs.length) .nil else xs
           let v := nth ps 1
           if wouldCycle m id v then
-            -- rolled back to the old element; the growth stays
-            pure' ((m.setArr id xs1).log Diag.runtime_ArrayRecursion) .nil
+            -- refused: the old element and the old size are restored
+            pure' (m.log Diag.runtime_ArrayRecursion) .nil
           else pure' (m.setArr id (xs1.set i v)) .nil
       | none => pure' (m.log Diag.runtime_ExpectedArrayTypeMissmatch) .nil
   | .mapref id, .ref p =>
